@@ -760,12 +760,140 @@ def _corr_fdepsd(ctx, drv):
             "fdepsd:winends=auto", "fdepsd:winends=None", "fdepsd:winends=dict"]
 
 
+# fdepsd: the whole per-frequency worker at Float ------------------------------------------
+
+def _bits(x):
+    return " ".join(str(int(v)) for v in np.ascontiguousarray(np.atleast_1d(np.asarray(x, dtype=np.float64))).view(np.uint64))
+
+
+def _unbits(s):
+    return np.array([int(t) for t in s.split()], dtype=np.uint64).view(np.float64)
+
+
+def _same(a, b):
+    """bit-for-bit equal doubles (NaN equals NaN)"""
+    a, b = np.asarray(a, float), np.asarray(b, float)
+    return a.shape == b.shape and bool(np.all((a == b) | (np.isnan(a) & np.isnan(b))))
+
+
+def _relclose(a, b, tol=1e-9):
+    """element-wise |a-b| <= tol*|b| (equal infinities / NaNs agree)"""
+    a, b = np.asarray(a, float), np.asarray(b, float)
+    if a.shape != b.shape:
+        return False
+    with np.errstate(invalid="ignore"):
+        ok = (a == b) | (np.isnan(a) & np.isnan(b)) | (np.abs(a - b) <= tol * np.abs(b))
+    return bool(np.all(ok))
+
+
+_PSDROW = ["g1", "g2", "g4", "g8", "g12", "pk2", "pk4", "pk8", "pk12", "v4", "v8", "v12",
+           "dt4", "dt8", "dt12", "dto4", "dto8", "dto12"]
+
+
+def _parse_ff(r):
+    head, lv, ct, bc, df, ps = r.split("|")
+    h = _unbits(head)
+    return dict(srs=h[0], var=h[1], amax=h[2], g2max=h[3], levels=_unbits(lv), count=_unbits(ct),
+                bincount=_unbits(bc), df=_unbits(df), **dict(zip(_PSDROW, _unbits(ps))))
+
+
+def _ff_line(resp, Q, f, T0, nb, resphist):
+    return "ff %s %s %s %s %d %s | %s" % ("a" if resp == "absacce" else "p", _bits(Q), _bits(f), _bits(T0), nb,
+                                          _bits(1e-6), _bits(resphist))
+
+
+def _cmp_ff(ctx, tag, inp, out, j, m, worker=None):
+    """every returned table of fdepsd (row j) against the Float run of Fde.fdeFreq"""
+    bad = []
+    exact = [("srs", out.srs.values[j], m["srs"]), ("amp(G1 column)=Amax", out.peakamp.values[j, 0], m["amax"]),
+             ("binamps", out.binamps.values[j], m["levels"]), ("count", out.count.values[j], m["count"]),
+             ("bincount", out.bincount.values[j], m["bincount"])]
+    if worker is not None:
+        exact += [("worker(_dofde).srs", worker["srs"][j], m["srs"]), ("worker(_dofde).Amax", worker["amax"][j], m["amax"]),
+                  ("worker(_dofde).BinAmps", worker["binamps"][j], m["levels"]), ("worker(_dofde).Count", worker["count"][j], m["count"])]
+    for name, a, b in exact:
+        if not _same(a, b):
+            bad.append((name, a, b))
+    numeric = [("var", out.var.values[j], m["var"]), ("di_sig", out.di_sig.values[j], m["df"]),
+               ("psd", out.psd.values[j], [m[k] for k in ("g1", "g2", "g4", "g8", "g12")]),
+               ("amp(peakamp G2..G12)", out.peakamp.values[j, 1:], [m[k] for k in ("pk2", "pk4", "pk8", "pk12")]),
+               ("var_test", out.var_test.values[j], [m["v4"], m["v8"], m["v12"]]),
+               ("di_test", out.di_test.values[j], [m["dto4"], m["dto8"], m["dto12"]])]
+    if worker is not None:
+        numeric.append(("worker(_dofde).var", worker["var"][j], m["var"]))
+    for name, a, b in numeric:
+        if not _relclose(a, b):
+            bad.append((name, a, b))
+    for name, a, b in bad:
+        ctx.disagree("fdepsd-%s-%s" % (tag, name), inp, np.asarray(a, float).ravel()[:8].tolist(), np.asarray(b, float).ravel()[:8].tolist())
+    return not bad
+
+
+def _corr_fde_worker(ctx, drv):
+    """numeric tie of Model/FdePsd (`Fde.fdeFreq` run at Float) to fdepsd.fdepsd and fdepsd._dofde: the model is fed the
+    implementation's own filtered response (same public helpers) and must reproduce every returned table."""
+    from pyyeti import fdepsd, srs
+    import scipy.signal as signal
+
+    req, meta = [], []
+    for sig, sr, freq, Q, opts in _fde_grid(ctx, ctx.pick(30, 240), 14):
+        inp0 = {"sr": sr, "freq": list(map(float, freq)), "Q": Q, "opts": {k: str(v) for k, v in opts.items()}}
+        try:
+            out = fdepsd.fdepsd(sig, sr, freq, Q, parallel="no", **opts)
+            coeffunc = srs._process_inputs(opts["resp"], "abs", None, "primary")[0]
+            LF, nb = len(freq), opts["nbins"]
+            fdepsd.WN_, fdepsd.SIG_ = 2 * np.pi * out.freq, out.sig
+            fdepsd.ASV_, fdepsd.Count_ = np.zeros((3, LF)), np.zeros((LF, nb))
+            fdepsd.BinAmps_ = np.zeros((LF, nb)) + np.arange(nb, dtype=float) / nb
+            for j in range(LF):
+                fdepsd._dofde((j, (coeffunc, Q, 1 / out.sr, False)))
+        except Exception as e:
+            ctx.disagree("fdepsd-raises", inp0, repr(e)[:300], "a result")
+            continue
+        worker = dict(amax=fdepsd.ASV_[0].copy(), srs=fdepsd.ASV_[1].copy(), var=fdepsd.ASV_[2].copy(),
+                      binamps=fdepsd.BinAmps_.copy(), count=fdepsd.Count_.copy())
+        for j, f in enumerate(out.freq):
+            b, a = coeffunc(Q, 1 / out.sr, 2 * np.pi * f)
+            resphist = signal.lfilter(b, a, out.sig)
+            req.append(_ff_line(opts["resp"], Q, f, opts["T0"], nb, resphist))
+            meta.append(("grid", dict(inp0, row=j, nsig=int(out.sig.size)), out, j, worker, opts["resp"], nb))
+    # dyadic signals through an identity SDOF filter: cycles exactly on the bin levels, constant-amplitude tables
+    for k, (sig, nb) in enumerate(_exact_signals(ctx, ctx.pick(60, 600), 15)):
+        resp = ("absacce", "pvelo")[k % 2]
+        try:
+            out, wcount, wamps = _run_exact(sig, nb, resp)
+        except Exception as e:
+            ctx.disagree("fdepsd-exact-raises", {"sig": sig.tolist(), "nbins": nb}, repr(e)[:300], "a result")
+            continue
+        for j, f in enumerate(out.freq):
+            req.append(_ff_line(resp, 10.0, f, 60.0, nb, sig))
+            meta.append(("exact", {"exact_sig": sig.tolist(), "nbins": nb, "resp": resp, "row": j}, out, j, None, resp, nb))
+    rep = drv.ask(req)
+    for (kind, inp, out, j, worker, resp, nb), r in zip(meta, rep):
+        if r in ("value-error", "bad-op"):
+            ctx.case((kind, repr(inp)), branch="fdeworker:" + r)
+            ctx.disagree("fdepsd-worker-model", inp, "a result", r)
+            continue
+        m = _parse_ff(r)
+        ctx.case((kind, repr(inp), j), nontrivial=True, branch="fdeworker:%s:resp=%s" % (kind, resp))
+        ctx.count("fdeworker:g2-%s" % ("raised" if m["g2max"] != m["amax"] ** 2 else "kept"))
+        ctx.count("fdeworker:nbins=%s" % ("1" if nb == 1 else "2" if nb == 2 else "many"))
+        if kind == "exact" and nb > 1 and np.any(np.isin(m["levels"][1:], np.asarray(out.binamps.values[j])[1:])):
+            pass
+        ok = _cmp_ff(ctx, "worker" if kind == "grid" else "worker-exact", inp, out, j, m, worker)
+        if ok and len(ctx.samples) < 6 and j == 0 and kind == "grid":
+            ctx.sample({"fdepsd-worker": inp, "psd": out.psd.values[j].tolist()})
+    return ["fdeworker:grid:resp=absacce", "fdeworker:grid:resp=pvelo", "fdeworker:exact:resp=absacce", "fdeworker:exact:resp=pvelo",
+            "fdeworker:g2-raised", "fdeworker:g2-kept", "fdeworker:nbins=1", "fdeworker:nbins=2", "fdeworker:nbins=many"]
+
+
 def correspondence(ctx):
     drv = ctx.driver("C10")
     need = _corr_findap(ctx, drv)
     need += _corr_binning(ctx, drv)
     need += _corr_fdepsd(ctx, drv)
     need += _corr_fdepsd_exact(ctx, drv)
+    need += _corr_fde_worker(ctx, drv)
     ctx.exhaustive = False
     ctx.require_branches(need)
 
